@@ -38,6 +38,13 @@ func NewArray() *Array {
 
 // newArrayWithParser returns a new array message.
 func newArrayWithParser(parser *Parser) (*Array, error) {
+	// Arrays are parsed recursively: a stream of nothing but array headers
+	// must not be able to exhaust the stack.
+	parser.depth++
+	defer func() { parser.depth-- }()
+	if MaxArrayDepth < parser.depth {
+		return nil, fmt.Errorf(errorTooDeepArray, MaxArrayDepth)
+	}
 	numBytes, err := parser.nextLineBytes()
 	if err != nil {
 		return nil, err
